@@ -229,15 +229,15 @@ class AsyncListener:
         # The mDNS port and every legacy port of a host are queriers of their
         # own: each has its own held packets and its own timer
         key = addr if port == _MDNS_PORT else (addr, port)
+        # The query is answered when its last packet has arrived, its questions
+        # were heard now (also when this is a copy of a packet that is held)
+        self._query_handler.async_remember_query(msg, msg.now)
         deferred = self._deferred.setdefault(key, [])
         # If we get the same packet we ignore it
         for incoming in reversed(deferred):
             if incoming.data == msg.data:
                 return
         deferred.append(msg)
-        # The query is answered when its last packet has arrived, its questions
-        # were heard now
-        self._query_handler.async_remember_query(msg, msg.now)
         delay = millis_to_seconds(random.randint(*_TC_DELAY_RANDOM_INTERVAL))
         loop = self.zc.loop
         assert loop is not None
